@@ -8,7 +8,61 @@
 #include "st_codecs.h"
 #include "st_stringstream.h"
 
+#include <locale>
+#include <clocale>
+
 namespace vf_early {
+
+// Objects of the types whose default constructor is declared constexpr, defined AFTER the Runner object: they are constant-
+// initialised, so a value the Runner's constructor gives them (before main, before any later dynamic initialiser of this
+// translation unit) is still there in main().  A constructor that silently stopped being a constant expression would run after
+// the Runner and wipe the value.
+extern ST::char_buffer g_cb;
+extern ST::utf16_buffer g_u16;
+extern ST::utf32_buffer g_u32;
+extern ST::wchar_buffer g_w;
+ST::char_buffer g_cb;
+ST::utf16_buffer g_u16;
+ST::utf32_buffer g_u32;
+ST::wchar_buffer g_w;
+inline void give_values()
+{
+    g_cb = ST::char_buffer("0123456789abcdefghij", 20);
+    g_u16 = ST::utf16_buffer(u"0123456789abcdefghij", 20);
+    g_u32 = ST::utf32_buffer(U"short", 5);
+    g_w = ST::wchar_buffer(L"0123456789abcdefghij", 20);
+}
+inline std::string globals_problem()
+{
+    if (g_cb.size() != 20 || memcmp(g_cb.data(), "0123456789abcdefghij", 21) != 0) return "char_buffer";
+    if (g_u16.size() != 20 || g_u16.data()[19] != u'j' || g_u16.data()[20] != 0) return "utf16_buffer";
+    if (g_u32.size() != 5 || g_u32.data()[4] != U't' || g_u32.data()[5] != 0) return "utf32_buffer";
+    if (g_w.size() != 20 || g_w.data()[19] != L'j' || g_w.data()[20] != 0) return "wchar_buffer";
+    return "";
+}
+
+// a process whose global C++ locale and C locale are not the classic ones: ctype<char> that maps bytes >= 0x80 and the letter
+// i in its own way, numpunct with a decimal comma and grouping, LC_ALL = C.UTF-8.  The library documents ASCII-only case
+// mapping and takes its number formats from its own code and snprintf/strtod; nothing in the battery may change.
+struct HostileCtype : std::ctype<char> {
+    char do_toupper(char c) const override { unsigned char u = (unsigned char)c; return u >= 0x80 ? (char)(u ^ 0x20) : c == 'i' ? (char)0xDD : (char)std::ctype<char>::do_toupper(c); }
+    char do_tolower(char c) const override { unsigned char u = (unsigned char)c; return u >= 0x80 ? (char)(u ^ 0x20) : c == 'I' ? (char)0xFD : (char)std::ctype<char>::do_tolower(c); }
+    const char *do_toupper(char *lo, const char *hi) const override
+    {
+        for (; lo != hi; ++lo) *lo = do_toupper(*lo);
+        return hi;
+    }
+    const char *do_tolower(char *lo, const char *hi) const override
+    {
+        for (; lo != hi; ++lo) *lo = do_tolower(*lo);
+        return hi;
+    }
+};
+struct HostileNumpunct : std::numpunct<char> {
+    char do_decimal_point() const override { return ','; }
+    char do_thousands_sep() const override { return '.'; }
+    std::string do_grouping() const override { return "\3"; }
+};
 
 // One call of every family with inputs that need every entry of every table the library could keep: all 256 byte
 // values through the codecs and the case mappings, every digit of every radix, every format class.
@@ -158,16 +212,24 @@ inline std::string battery()
 }
 
 // in a forked child, so that a crash or an abort during static initialisation becomes a result instead of ending the harness
+inline std::string run_in_child(bool hostile_locale);
 inline Runner::Runner()
 {
+    give_values();
+    early_result() = run_in_child(false);
+}
+inline std::string run_in_child(bool hostile_locale)
+{
     int fd[2];
-    if (pipe(fd) != 0) {
-        early_result() = "machinery:pipe";
-        return;
-    }
+    if (pipe(fd) != 0) return "machinery:pipe";
     pid_t pid = fork();
     if (pid == 0) {
         close(fd[0]);
+        if (hostile_locale) {
+            setlocale(LC_ALL, "C.UTF-8");
+            std::locale l(std::locale(std::locale::classic(), new HostileCtype), new HostileNumpunct);
+            std::locale::global(l);
+        }
         std::string r = battery();
         size_t off = 0;
         while (off < r.size()) {
@@ -187,7 +249,7 @@ inline Runner::Runner()
     waitpid(pid, &st, 0);
     if (WIFSIGNALED(st)) r += "\n#crash:signal=" + std::to_string(WTERMSIG(st));
     else if (!WIFEXITED(st) || WEXITSTATUS(st) != 0) r += "\n#exit:" + std::to_string(WEXITSTATUS(st));
-    early_result() = r;
+    return r;
 }
 
 // section in which two battery results first differ
@@ -219,8 +281,29 @@ inline void add_stage(vf::Plan &plan)
                               vf::strf("library calls made while global objects are being initialised give other results than the same calls later; first "
                                        "difference in section '%s' (%zu vs %zu bytes)", d.c_str(), then.size(), now.size()));
                    if (now.find("\n#exception:") != std::string::npos) c.fail("static-initialisation:battery-throws", now.substr(now.rfind("\n#") + 2));
+                   VF_COUNT("validated");
+                   std::string gp = globals_problem();
+                   if (!gp.empty())
+                       c.fail("static-initialisation:constexpr-default-constructor-runs-at-start-up:" + gp,
+                              "a namespace-scope " + gp + " that was given a value by an earlier global's constructor is empty in main(): its default "
+                              "constructor is declared constexpr but was executed as a dynamic initialiser");
                    c.nontrivial();
                },
                [](uint64_t) { return std::string("battery of library calls before main() and in main()"); });
+    plan.stage("process locale: the same battery in a child whose global C++ locale has its own ctype<char> (bytes >= 0x80, dotless/dotted i) and "
+               "numpunct (decimal comma, grouping) and whose C locale is C.UTF-8, compared with the classic locale",
+               1,
+               [](uint64_t, vf::Ctx &c) {
+                   std::string plain = battery(), hostile = run_in_child(true);
+                   VF_COUNT("validated");
+                   std::string d = first_difference(hostile, plain);
+                   if (hostile.find("\n#crash:") != std::string::npos || hostile.find("\n#exit:") != std::string::npos)
+                       c.fail("process-locale:library-call-fails", hostile.substr(hostile.rfind("\n#") + 2));
+                   else if (!d.empty())
+                       c.fail("process-locale:result-depends-on-the-global-locale:" + d,
+                              vf::strf("with a non-classic global locale the battery differs; first difference in section '%s'", d.c_str()));
+                   c.nontrivial();
+               },
+               [](uint64_t) { return std::string("battery under a non-classic global locale"); });
 }
 }  // namespace vf_early
